@@ -11,6 +11,7 @@ import (
 	"strconv"
 	"strings"
 	"sync"
+	"sync/atomic"
 	"time"
 
 	"github.com/fullstorydev/grpchan/grpchantesting"
@@ -46,6 +47,8 @@ type Env struct {
 	srv    *httptest.Server
 	hooks  *hooks
 	clis   []*cli
+	// native mode only: handler goroutines in flight (the harness must itself be race-free there)
+	hStarted, hDone int32
 }
 
 // finalize reads the call-option targets once everything is quiescent (reading
@@ -148,12 +151,14 @@ func retErr(op string, ctx context.Context) error {
 func (e *Env) unaryHandler(i int, ctx context.Context, dec func(interface{}) error) (resp interface{}, err error) {
 	rr := e.rec.RPCs[i]
 	rr.HandlerRan++
+	atomic.AddInt32(&e.hStarted, 1)
 	tn := fmt.Sprintf("h%d", i)
 	defer func() {
 		rr.HandlerRet = es(err)
 		rr.CtxErrAtRet = es(mc.CtxErrNoYield(ctx))
 		rr.HandlerDone = true
 		e.rec.ev(tn, "return", rr.HandlerRet)
+		atomic.AddInt32(&e.hDone, 1)
 	}()
 	for _, op := range e.sc.RPCs[i].Handler {
 		switch {
@@ -199,6 +204,7 @@ func (e *Env) unaryHandler(i int, ctx context.Context, dec func(interface{}) err
 func (e *Env) streamHandler(i int, stream grpc.ServerStream) (err error) {
 	rr := e.rec.RPCs[i]
 	rr.HandlerRan++
+	atomic.AddInt32(&e.hStarted, 1)
 	tn := fmt.Sprintf("h%d", i)
 	ctx := stream.Context()
 	defer func() {
@@ -206,6 +212,7 @@ func (e *Env) streamHandler(i int, stream grpc.ServerStream) (err error) {
 		rr.CtxErrAtRet = es(mc.CtxErrNoYield(ctx))
 		rr.HandlerDone = true
 		e.rec.ev(tn, "return", rr.HandlerRet)
+		atomic.AddInt32(&e.hDone, 1)
 	}()
 	var joined chan struct{}
 	var mjoin *mc.Chan[struct{}]
@@ -533,7 +540,9 @@ func (e *Env) setup() {
 
 // body is the root task of an execution.
 func (e *Env) body() {
-	e.setup()
+	if e.ch == nil {
+		e.setup()
+	}
 	if e.sc.Cancel == "cancel" {
 		e.goTask("canceller", func() {
 			e.cancel()
